@@ -545,6 +545,9 @@ func (e *Enc) encodeBlock(fr *frame, b *ssa.BasicBlock, st *bstate) {
 		if isBackEdge(b, s) {
 			li := fr.loops[s]
 			cond := fr.edge[[2]int{b.Index, s.Index}]
+			if !fr.inlined {
+				e.canary(&bstate{reach: cond, heap: st.heap}, fmt.Sprintf("backedge.b%d.loop%d", b.Index, li.ordinal))
+			}
 			e.checkInvariant(fr, li, b, &bstate{reach: cond, heap: st.heap}, "inv-keep")
 		}
 	}
@@ -552,6 +555,20 @@ func (e *Enc) encodeBlock(fr *frame, b *ssa.BasicBlock, st *bstate) {
 
 func (e *Enc) checkPost(fr *frame, st *bstate, rs []Val, ret *ssa.Return) {
 	fr.retCount++
+	if !fr.inlined {
+		dead := false
+		if e.C != nil {
+			line := e.P.srcLine(ret.Pos())
+			for _, a := range e.C.Dead {
+				if strings.Contains(line, a) {
+					dead = true
+				}
+			}
+		}
+		if !dead {
+			e.canary(st, fmt.Sprintf("return@%s", e.P.posString(ret.Pos())))
+		}
+	}
 	if e.C == nil {
 		return
 	}
@@ -608,6 +625,14 @@ func (e *Enc) encodeInstr(fr *frame, b *ssa.BasicBlock, idx int, in ssa.Instruct
 			old := e.heapVar(st, c)
 			n := e.newHeapVersion(st, c)
 			e.assert(sEq(n, app("store", old, r, e.W.zero(pt))))
+			if at, isArr := pt.Underlying().(*types.Array); isArr {
+				// elements of a local array are addressed (IndexAddr, slicing) through the element
+				// component with the array's reference as base: zero-initialise it there as well
+				ec := e.W.elemComp(at.Elem())
+				eo := e.heapVar(st, ec)
+				en := e.newHeapVersion(st, ec)
+				e.assert(sEq(en, app("store", eo, r, e.W.constArray(e.W.sortOf(at.Elem()), e.W.zero(at.Elem())))))
+			}
 		}
 		e.setVal(x, Val{T: r})
 	case *ssa.FieldAddr:
